@@ -57,7 +57,7 @@
     connection is dropped while [b; c] wait, c is served before b.
 
     ---------------------------------------------------------------------------------------
-    pgcat (/repo/src, tree at 2ecc068) — the code modelled:
+    pgcat (/repo/src, tree at a7d476c) — the code modelled:
 
     pool.rs:503-517   Pool::builder().max_size(user.pool_size).min_idle(user.min_pool_size)
                       .connection_timeout(connect_timeout).queue_strategy(Lifo | Fifo if
@@ -71,50 +71,58 @@
     pool.rs:1261-1271 has_broken = is_bad() || (role != Mirror && is_unclean()); is_unclean
                       (server.rs:1268-1273) = in_transaction || in_copy_mode || data_available ||
                       needs_cleanup: decides the [broken] argument of every release
-    client.rs:1090-1152  checkout; Err => error_response "could not get connection from the
+    client.rs:1101-1163  checkout; Err => error_response "could not get connection from the
                       pool", [continue] (client stays usable), or with checkout_failure_limit
-                      reached (1131-1148) => terminal error, return         = [WaitTimeout c fatal]
-    client.rs:1154    [let mut reference = connection.0;] — the PooledConnection guard is a LOCAL
+                      reached (1142-1159) => terminal error, return         = [WaitTimeout c fatal]
+    client.rs:1165    [let mut reference = connection.0;] — the PooledConnection guard is a LOCAL
                       of the outer loop body of handle(): it is dropped at the end of the
-                      iteration (1682), by every [return]/[?] below it, and by unwinding.
-                      (1161 [_cancel_entry] is declared after it, hence dropped before it.)
-    client.rs:1198-1670  transaction loop; [break] only when !server.in_transaction() and
-                      transaction mode and !in_copy_mode (1308-1321, 1573-1584, 1650-1661; 1608-
-                      1610 for a CopyDone/CopyFail outside COPY), or on the idle-in-transaction
-                      timeout (1221-1238)                                   = [TxnEndRelease]
+                      iteration (1693), by every [return]/[?] below it, and by unwinding.
+                      (1172 [_cancel_entry] is declared after it, hence dropped before it.)
+    client.rs:1209-1681  transaction loop; [break] only when !server.in_transaction() and
+                      transaction mode and !in_copy_mode (1319-1332, 1584-1595, 1661-1672; 1619-
+                      1621 for a CopyDone/CopyFail outside COPY), or on the idle-in-transaction
+                      timeout (1232-1249)                                   = [TxnEndRelease]
                       session mode: never breaks                            = [SessionModeKeep]
-    client.rs:1675    server.checkin_cleanup().await? then the guard drops  = [TxnEndRelease c b]
+    client.rs:1686    server.checkin_cleanup().await? then the guard drops  = [TxnEndRelease c b]
 
     Every way the task can END while it holds the guard ([ExitHolding c how broken]); line
     numbers of client.rs; each drops [reference] => put_back with [broken] = has_broken:
-      XTerminate        1326-1331  'X': checkin_cleanup()?, return Ok
-      ClientSocketErr   1213-1219  read error inside the loop: checkin_cleanup()?, return Err
-      IdleTimeoutWrite  1223       error_response(..)? fails on the idle-in-transaction timeout
-      DecoderErr        1348 buffer_parse?, 1354 buffer_bind? (also "prepared statement does not
-                        exist": 1954-1966), 1360 buffer_describe?, 1373 Close::try_from?
-      Panic             any panic below 1154 unwinds through the local (e.g. a Close whose body is
+      XTerminate        1337-1342  'X': checkin_cleanup()?, return Ok
+      ClientSocketErr   1224-1230  read error inside the loop: checkin_cleanup()?, return Err
+      IdleTimeoutWrite  1234       error_response(..)? fails on the idle-in-transaction timeout
+      DecoderErr        1359 buffer_parse?, 1365 buffer_bind? (also "prepared statement does not
+                        exist": 1965-1977), 1371 buffer_describe?, 1384 Close::try_from?
+      Panic             any panic below 1165 unwinds through the local (e.g. a Close whose body is
                         just "S": messages.rs Close::try_from reads past the end — observed: task
                         result "panic")
-      ClientWriteFail   1282, 1287, 1391, 1398 ([?] on error_response / write_all);
-                        2072-2078, 1545-1554, 1636-1641 (mark_bad, return Err)
-      StatementTimeout  2142-2153  mark_bad, terminal error, Err
-      ServerError       1183 sync_parameters?; send 2103-2108 (server.rs send sets bad);
-                        recv 2130-2140 (server.rs recv sets bad); 1594, 1620, 1627-1634
-      CleanupErr        1217, 1327, 1675: checkin_cleanup()? itself fails (ROLLBACK / RESET I/O)
-      PreparedStmtErr   1470-1473, 1482-1488, 1496-1502 (register/ensure prepared statement)?
+      ClientWriteFail   1293, 1298, 1402, 1409 ([?] on error_response / write_all);
+                        2083-2089, 1556-1565, 1647-1652 (mark_bad, return Err)
+      StatementTimeout  2153-2164  mark_bad, terminal error, Err
+      ServerError       1194 sync_parameters?; send 2114-2119 (server.rs send sets bad);
+                        recv 2141-2151 (server.rs recv sets bad); 1605, 1631, 1638-1645
+      CleanupErr        1228, 1338, 1686: checkin_cleanup()? itself fails (ROLLBACK / RESET I/O)
+      PreparedStmtErr   1481-1484, 1493-1499, 1507-1513 (register/ensure prepared statement)?
     Ends while NOT holding ([Disconnect]): 924-927, 932, 935 (read error), 938-943 ('X'), 949,
-    956, 973, 978, 1029, 1040, 1047, 1059, 1072, 1081, 1114, 1138-1147.
+    956, 973, 978, 1029, 1040, 1047, 1059, 1072, 1092, 1125, 1149-1158.
 
     [continue] inside the transaction loop = ways to stay in it HOLDING (7; props/c04.py checks the
-    count): 1283/1288 Deny/Intercept at 'Q', 1384 Sync during COPY, 1394 Deny at 'S', 1401
-    Intercept at 'S', 1448 in the buffer drain (inner while), 1612 CopyDone/CopyFail outside COPY
-    while in a transaction or in session mode.  All but one are reached only inside a transaction
-    / COPY or in session mode.  The exception is the F14 class ([InterceptHold]), 1397-1402: an
-    [Intercept] verdict stored at 'P' in the outer loop (1011-1015) is acted on at 'S' only after
-    the checkout, inside the transaction loop, and [continue]s: the client has its
-    ReadyForQuery('I') and is idle, the connection stays in use until the client's next message
-    (confirmed on the implementation).  (For a first message 'Q' the outer loop has already acted
-    on the verdict at 972-980; a Deny stored at 'P' is acted on at 1070-1075 before the checkout.) *)
+    count): 1294/1299 Deny/Intercept at 'Q', 1395 Sync during COPY, 1405 Deny at 'S', 1412
+    Intercept at 'S', 1459 in the buffer drain (inner while), 1623 CopyDone/CopyFail outside COPY
+    while in a transaction or in session mode.  All are reached only inside a transaction / COPY
+    or in session mode:
+      * a verdict on a first message 'Q' is acted on in the outer loop (972-980), a Deny stored at
+        'P' at 1070-1075, and — since a7d476c — an Intercept stored at 'P' at 1077-1085 ([if
+        message[0] == 'S'] ... reset_buffered_state, write, plugin_output = None, continue), all
+        BEFORE wait_paused / the checkout: an intercepted batch never takes a server;
+      * so the transaction loop sees an Intercept verdict at 'S' (1408-1413) only for a Parse it
+        received itself, i.e. while the client is inside a transaction or the pool is in session
+        mode, where holding is what the mode means.
+    F14 (repaired by a7d476c): before that commit the check at 1077-1085 did not exist; the
+    verdict stored at 'P' was acted on at 'S' only after the checkout, inside the transaction
+    loop, which [continue]d: the client had its ReadyForQuery('I') and was idle while the
+    connection stayed in use until its next message.  That code is kept as the MUTANT
+    [InterceptHold], enabled only under [f14_mutant cfg = true]; the model of the code that exists
+    is [f14_mutant cfg = false], where the op is never enabled. *)
 From Coq Require Import Arith Bool List.
 Import ListNotations.
 
@@ -140,7 +148,8 @@ Record config : Type := mkConfig {
   max_size : nat;        (* user.pool_size *)
   min_idle : nat;        (* user.min_pool_size, 0 if unset *)
   strat : strategy;      (* Fifo iff general.server_round_robin *)
-  session_mode : bool    (* pool_mode = session *)
+  session_mode : bool;   (* pool_mode = session *)
+  f14_mutant : bool      (* false = the code that exists; true = the code before a7d476c (mutant) *)
 }.
 
 Record state : Type := mkState {
@@ -246,7 +255,7 @@ Inductive op : Type :=
 | Exchange (c : cid)                       (* holder ran a statement and is (still) inside a transaction *)
 | TxnEndRelease (c : cid) (broken : bool)  (* normal release *)
 | SessionModeKeep (c : cid)                (* session mode: transaction over, connection kept *)
-| InterceptHold (c : cid)                  (* F14: Intercept verdict acted on at 'S' inside the loop *)
+| InterceptHold (c : cid)                  (* MUTANT (pre-a7d476c code, F14): Intercept verdict acted on at 'S' inside the loop *)
 | ExitHolding (c : cid) (how : exit_how) (broken : bool)
 | Disconnect (c : cid)                     (* task ends while not holding *)
 | ConnDied (s : sid)                       (* server side closes the connection; the pool does not notice *)
@@ -263,7 +272,7 @@ Definition enabled (cfg : config) (st : state) (o : op) : bool :=
   | SessionModeKeep c =>
       match clients st c with Holding _ _ => session_mode cfg | _ => false end
   | InterceptHold c =>
-      match clients st c with Holding _ Fresh | Holding _ IdleHeld => true | _ => false end
+      match clients st c with Holding _ Fresh | Holding _ IdleHeld => f14_mutant cfg | _ => false end
   | Disconnect c => match clients st c with NoServer => true | _ => false end
   | ConnDied s => (mem s (idleq st) || mem s (map fst (held st))) && negb (mem s (dead st))
   | Reap s => mem s (idleq st)
@@ -314,9 +323,6 @@ Definition expected_broken (how : exit_how) (ph : phase) : option bool :=
   | ClientWriteFail | IdleTimeoutWrite => None
   end.
 
-(** The known class F14. *)
-Definition is_intercept_hold (o : op) : bool := match o with InterceptHold _ => true | _ => false end.
-Definition known_intercept_hold (ops : list op) : bool := existsb is_intercept_hold ops.
 
 (** --- driving the environment to quiescence (used by the capacity theorem and the harness) --- *)
 
